@@ -405,6 +405,36 @@ def long_texts(ctx):
                     ok_ = ok_ and st2 != 'raised' and got == want
             if not ok_:
                 ctx.mismatch('C30:long:identical-run:%s' % kind, 'text of %d lines with a run of %d identical lines, %s at line %d, context %d: make_patch / apply / revert do not reproduce the texts' % (total, run_a, kind, pos, n), case)
+    # very long texts with MANY hunks (seeded C30_13: output folded every 256 pieces, the second fold overwrote the first):
+    # distinct lines, an edit every `step` lines (insertion / deletion / replacement in turn), all context sizes
+    for total, step in ((600, 7), (600, 150), (1500, 256), (1500, 300), (3000, 40), (3000, 1000)):
+        base = ['line %d of the text' % k for k in range(total)]
+        b, turn = [], 0
+        for k, ln in enumerate(base):
+            if k % step == step // 2:
+                turn += 1
+                if turn % 3 == 0:
+                    b.extend([ln, 'inserted after %d' % k])
+                elif turn % 3 == 1:
+                    continue
+                else:
+                    b.append('replaced %d' % k)
+            else:
+                b.append(ln)
+        for n in (0, 1, 3):
+            for eol in (True, False):
+                ta, tb = '\n'.join(base) + ('\n' if eol else ''), '\n'.join(b) + '\n'
+                n_cases += 1
+                ctx.count(('many-hunks', total, step, n, eol), nontrivial=True)
+                case = {'check': 'long', 'a': '<%d distinct lines>' % total, 'b': '<an edit every %d lines>' % step, 'n': n}
+                st, pt = call(make_patch, ta, tb, 'f.ml', context_size=n)
+                ok_ = st != 'raised'
+                if ok_:
+                    for rev, src, want in ((False, ta, tb), (True, tb, ta)):
+                        st2, got = call(apply_patch, src, pt, rev)
+                        ok_ = ok_ and st2 != 'raised' and got == want
+                if not ok_:
+                    ctx.mismatch('C30:long:many-hunks', 'text of %d distinct lines with an edit every %d lines, context %d, final newline of the old text %s: make_patch / apply / revert do not reproduce the texts' % (total, step, n, eol), case)
     ctx.replayed += n_cases
     ctx.extra['long_text_round_trips'] = n_cases
 
